@@ -391,7 +391,9 @@ func (n *Nodis) blockingPop(timeout time.Duration, pop func(key string, count in
 	look := func() (string, []byte, bool) {
 		if timeout >= 0 {
 			n.store.execMu.RLock()
+			verifTrace("gate-in", c, "s", nil, false)
 			defer n.store.execMu.RUnlock()
+			defer verifTrace("gate-out", c, "s", nil, false)
 		}
 		for _, key := range keys {
 			verifPoint("bpop.beforePop")
